@@ -1,4 +1,5 @@
 import Gmx.Lemmas.PoolValue
+import Gmx.Gen.C06Kinds
 /-!
 # C06 — liquidity providers cannot profit from a deposit/withdraw round trip
 
@@ -463,24 +464,48 @@ theorem roundtrip_bound_slack {W U : Nat} {m m₁ m₂ : Market} {d : DepositPar
     rw [← k3]; exact w1
   exact Nat.le_trans w2 (roundtrip_core hpos h1 hP h3)
 
-/-- the withdrawal's own validations (reserve and max pnl factor, run on the pools AFTER the
-withdrawal) bound how much its pnl cap could have cut: at most `⌊poolValue_side/U⌋ + 1` (the
-rounding of the pnl factor), `poolValue_side` the side's liquidity value after the withdrawal at
-the MIN price. -/
-theorem withdraw_caps_slack {W U : Nat} {m₁ m₂ : Market} {w : WithdrawParams} {pin : PerpIn} {r : WithdrawReport}
-    (hw : withdraw W U m₁ w pin = (m₂, .ok r)) (b : Bool) :
-    ∀ p c lv, marketPnl W m₁ w.prices.index b true = some p →
-      poolValueWithoutPnlOneSide W m₁ w.prices b false = some lv →
-      capPnl W U p lv (m₁.cfg.pnlFactor .maxAfterWithdrawal) = some c →
-      p ≤ c + ((m₂.primary.amount b * (w.prices.collateral b).min / U + 1 : Nat) : Int) := by
-  intro p c lv hp hlv hc
+/-! ### the post-check of the withdrawal and its kind
+
+`Gmx.Gen.C06` is REGENERATED from `action/{deposit,withdraw,swap}.rs` on every run
+(`translator/c06_kinds.py`, fail closed): which pnl-factor kinds each action validates and values
+the pool with, and that the withdrawal's validation sits after its pool deltas. The statements
+below are about those generated constants, so a changed kind in the source breaks them. -/
+
+/-- the model's actions use exactly the kinds found in the source: deposits validate
+(`MaxAfterDeposit`, `MaxAfterDeposit`) first and value the pool maximised with `MaxAfterDeposit`;
+withdrawals value the pool minimised with `MaxAfterWithdrawal` and validate (`MaxAfterWithdrawal`,
+`MaxAfterWithdrawal`) afterwards; swaps validate the receiving side against the deposit factor and
+the paying side against the withdrawal factor. -/
+theorem source_kinds :
+    Gen.C06.depositPreCheck = (.maxAfterDeposit, .maxAfterDeposit) ∧
+    Gen.C06.depositPoolValue = (.maxAfterDeposit, true) ∧
+    Gen.C06.withdrawPostCheck = (.maxAfterWithdrawal, .maxAfterWithdrawal) ∧
+    Gen.C06.withdrawPoolValue = (.maxAfterWithdrawal, false) ∧
+    Gen.C06.swapKindsInLong = (.maxAfterDeposit, .maxAfterWithdrawal) ∧
+    Gen.C06.swapKindsInShort = (.maxAfterWithdrawal, .maxAfterDeposit) := by decide
+
+/-- the kind the withdrawal VALIDATES with is the kind it VALUES the pool with (on both sides) —
+this equality is what the no-gain bound needs: the cap used for pricing is the cap that was checked. -/
+theorem withdraw_postcheck_matches_valuation :
+    Gen.C06.withdrawPostCheck.1 = Gen.C06.withdrawPoolValue.1 ∧
+    Gen.C06.withdrawPostCheck.2 = Gen.C06.withdrawPoolValue.1 := by decide
+
+/-- **`withdraw_postcheck_kind`**: a successful withdrawal leaves, on BOTH sides, a pnl factor that
+passes the max-pnl validation with the source's post-check kinds (the withdrawal cap) on the pools
+AFTER the withdrawal, and both reserve validations; i.e. `pnl factor ≤ MaxAfterWithdrawal` cap
+whenever the pnl is positive. A deposit passes the same validation with the deposit kinds BEFORE
+anything else (`deposit_precheck_kind`). -/
+theorem withdraw_postcheck_kind {W U : Nat} {m₁ m₂ : Market} {w : WithdrawParams} {pin : PerpIn} {r : WithdrawReport}
+    (hw : withdraw W U m₁ w pin = (m₂, .ok r)) :
+    validateMaxPnl W U m₂ w.prices Gen.C06.withdrawPostCheck.1 Gen.C06.withdrawPostCheck.2 = .ok () ∧
+    (∀ b, validatePnlFactor W U m₂ w.prices Gen.C06.withdrawPoolValue.1 b = .ok ()) ∧
+    (∀ b f pv, pnlFactorWithPoolValue W U m₂ w.prices b true = some (f, pv) →
+        ¬ (f > 0 ∧ f.natAbs > m₂.cfg.maxPnlWithdrawal)) ∧
+    (∀ b, validateReserve W U m₂ w.prices b = .ok ()) := by
   have f := withdraw_spec hw
-  have hfr := f.frame
-  have hcfg : m₂.cfg = m₁.cfg := by rw [hfr]
-  have hM : marketPnl W m₂ w.prices.index b true = marketPnl W m₁ w.prices.index b true := by rw [hfr]; rfl
-  have hres : validateReserve W U m₂ w.prices b = .ok () := by cases b; exact f.reserve_short; exact f.reserve_long
-  have hpf : validatePnlFactor W U m₂ w.prices .maxAfterWithdrawal b = .ok () := by
-    have hm := f.maxpnl
+  have hm : validateMaxPnl W U m₂ w.prices .maxAfterWithdrawal .maxAfterWithdrawal = .ok () := f.maxpnl
+  have hb : ∀ b, validatePnlFactor W U m₂ w.prices .maxAfterWithdrawal b = .ok () := by
+    intro b
     unfold validateMaxPnl at hm
     split at hm
     · cases hm
@@ -488,34 +513,92 @@ theorem withdraw_caps_slack {W U : Nat} {m₁ m₂ : Market} {w : WithdrawParams
       cases b
       · exact hm
       · exact hlong
-  cases hpv2 : poolValueWithoutPnlOneSide W m₂ w.prices b false with
+  refine ⟨hm, hb, ?_, fun b => by cases b; exact f.reserve_short; exact f.reserve_long⟩
+  intro b fac pv hf
+  have := hb b
+  unfold validatePnlFactor at this
+  rw [hf] at this
+  simp only at this
+  split at this
+  · cases this
+  · rename_i hne
+    intro ⟨h1, h2⟩
+    apply hne
+    simp [pnlExceeded, h1, MarketConfig.pnlFactor]
+    exact h2
+
+theorem deposit_precheck_kind {W U : Nat} {m m' : Market} {d : DepositParams} {pin : PerpIn} {t : DepositTrace}
+    (hd : deposit W U m d pin = (m', .ok t)) :
+    validateMaxPnl W U m d.prices Gen.C06.depositPreCheck.1 Gen.C06.depositPreCheck.2 = .ok () ∧
+    poolValue W U m d.prices Gen.C06.depositPoolValue.1 Gen.C06.depositPoolValue.2 pin = some (t.poolValue : Int) := by
+  refine ⟨?_, (deposit_spec hd).pv⟩
+  unfold deposit at hd
+  split at hd
+  · cases hd
+  · split at hd
+    · cases hd
+    · rename_i hv; exact hv
+
+/-- **what the no-gain bound takes from the post-check.** For ANY factor kind `K`: if a side of the
+market `m₂` passes the reserve validation and the max-pnl validation with kind `K`, and `m₁` has
+the same positions and configuration and at least as much liquidity on that side, then capping
+that side's pnl in `m₁` with the SAME kind `K` cuts off at most `⌊pv₂/U⌋ + 1`. With a looser kind in
+the post-check than in the valuation this fails (`postcheck_rejects_between_caps_witness` is the
+state where it would). -/
+theorem caps_slack_of_postcheck {W U : Nat} {m₁ m₂ : Market} {pr : Prices} {K : PnlFactorKind} (b : Bool)
+    (hcfg : m₂.cfg = m₁.cfg)
+    (hM : marketPnl W m₂ pr.index b true = marketPnl W m₁ pr.index b true)
+    (hle : m₂.primary.amount b ≤ m₁.primary.amount b)
+    (hres : validateReserve W U m₂ pr b = .ok ())
+    (hpf : validatePnlFactor W U m₂ pr K b = .ok ()) :
+    ∀ p c lv, marketPnl W m₁ pr.index b true = some p →
+      poolValueWithoutPnlOneSide W m₁ pr b false = some lv →
+      capPnl W U p lv (m₁.cfg.pnlFactor K) = some c →
+      p ≤ c + ((m₂.primary.amount b * (pr.collateral b).min / U + 1 : Nat) : Int) := by
+  intro p c lv hp hlv hc
+  cases hpv2 : poolValueWithoutPnlOneSide W m₂ pr b false with
   | none => unfold validateReserve at hres; rw [hpv2] at hres; cases hres
   | some pv2 =>
     have key := pnl_le_cap_of_validated hres hpf (by rw [hM]; exact hp) hpv2
     rw [hcfg] at key
-    have e2 : pv2 = m₂.primary.amount b * (w.prices.collateral b).min := by
+    have e2 : pv2 = m₂.primary.amount b * (pr.collateral b).min := by
       unfold poolValueWithoutPnlOneSide at hpv2
       cases b <;> simp only [Bool.false_eq_true, if_false, if_true, Price.pick] at hpv2 <;>
         have := checkedMul_eq hpv2 <;> simpa [Pool.amount, Prices.collateral] using this
-    have e1 : lv = m₁.primary.amount b * (w.prices.collateral b).min := by
+    have e1 : lv = m₁.primary.amount b * (pr.collateral b).min := by
       unfold poolValueWithoutPnlOneSide at hlv
       cases b <;> simp only [Bool.false_eq_true, if_false, if_true, Price.pick] at hlv <;>
         have := checkedMul_eq hlv <;> simpa [Pool.amount, Prices.collateral] using this
-    have hle : m₂.primary.amount b ≤ m₁.primary.amount b := by
-      have := f.liq_long; have := f.liq_short
-      cases b <;> simp [Pool.amount] <;> omega
     have hpvle : pv2 ≤ lv := by rw [e1, e2]; exact Nat.mul_le_mul_right _ hle
-    have hcaple : pv2 * m₁.cfg.pnlFactor .maxAfterWithdrawal / U ≤ lv * m₁.cfg.pnlFactor .maxAfterWithdrawal / U :=
+    have hcaple : pv2 * m₁.cfg.pnlFactor K / U ≤ lv * m₁.cfg.pnlFactor K / U :=
       Nat.div_le_div_right (Nat.mul_le_mul_right _ hpvle)
     obtain ⟨_, _, h3⟩ := capPnl_spec hc
     rw [← e2]
     push_cast
-    have : ((pv2 * m₁.cfg.pnlFactor .maxAfterWithdrawal / U : Nat) : Int)
-        ≤ ((lv * m₁.cfg.pnlFactor .maxAfterWithdrawal / U : Nat) : Int) := by exact_mod_cast hcaple
+    have : ((pv2 * m₁.cfg.pnlFactor K / U : Nat) : Int) ≤ ((lv * m₁.cfg.pnlFactor K / U : Nat) : Int) := by
+      exact_mod_cast hcaple
     rcases h3 with h3 | h3
     · have : (0 : Int) ≤ ((pv2 / U : Nat) : Int) := Int.natCast_nonneg _
       omega
     · omega
+
+/-- the withdrawal's own post-check (`withdraw_postcheck_kind`: reserve and max pnl factor with the
+VALUATION kind, on the pools AFTER the withdrawal) bounds how much its pnl cap could have cut: at
+most `⌊poolValue_side/U⌋ + 1` (the rounding of the pnl factor). This is the ONLY place where the
+round-trip bound with open positions uses the post-check. -/
+theorem withdraw_caps_slack {W U : Nat} {m₁ m₂ : Market} {w : WithdrawParams} {pin : PerpIn} {r : WithdrawReport}
+    (hw : withdraw W U m₁ w pin = (m₂, .ok r)) (b : Bool) :
+    ∀ p c lv, marketPnl W m₁ w.prices.index b true = some p →
+      poolValueWithoutPnlOneSide W m₁ w.prices b false = some lv →
+      capPnl W U p lv (m₁.cfg.pnlFactor Gen.C06.withdrawPoolValue.1) = some c →
+      p ≤ c + ((m₂.primary.amount b * (w.prices.collateral b).min / U + 1 : Nat) : Int) := by
+  have f := withdraw_spec hw
+  obtain ⟨_, hpf, _, hres⟩ := withdraw_postcheck_kind hw
+  have hfr := f.frame
+  have hle : m₂.primary.amount b ≤ m₁.primary.amount b := by
+    have := f.liq_long; have := f.liq_short
+    cases b <;> simp [Pool.amount] <;> omega
+  exact caps_slack_of_postcheck b (by rw [hfr]) (by rw [hfr]; rfl) hle (hres b) (hpf b)
 
 /-- **round trip with open positions** (the on-chain flow: `pre_execute` has just updated the
 borrowing state, so the borrowing clock is fresh). With existing holders and prices `min ≤ max`,
@@ -594,6 +677,26 @@ def mLeftover : Market :=
 (value 7) mints (999 751 + 7)/divisor tokens and the round trip returns 999 261. -/
 theorem zero_supply_leftover_witness :
     roundTrip 64 1000000000 mLeftover ⟨0, 7, flat 2 1⟩ = some (7, 999261, 0, 0, 999751) := by decide +kernel
+
+/-- a market with a profitable long position whose pending profit is 42 % of the long pool value:
+between the withdrawal cap (30 %) and the deposit cap (60 %). Liquidity 1 000 long @ 100 and
+100 000 short @ 1, supply 200 000; long open interest 84 000 USD / 840 tokens entered at 100, index
+now 200 ⇒ pnl = 840·200 − 84 000 = 84 000 = 42 % of 200 000. -/
+def mBand : Market :=
+  { cfg := cfgW 0 0 ⟨2000000000, 0, 0⟩, primary := ⟨1000, 100000⟩, supply := 200000,
+    oiL := ⟨84000, 0⟩, oitL := ⟨840, 0⟩ }
+
+/-- **the post-check at work**: in that state a deposit is accepted (42 % ≤ deposit cap 60 %) and
+priced with the whole pending profit deducted, but the withdrawal of the minted tokens is REJECTED
+by the post-check with the withdrawal kind (42 % > 30 %) — with the deposit kind there instead it
+would be paid at a pool value with only 30 % deducted, i.e. more than was deposited. -/
+theorem postcheck_rejects_between_caps_witness :
+    (match deposit 64 1000000000 mBand ⟨10, 0, flat 200 1⟩ PerpIn.zero with
+     | (m₁, .ok t) =>
+       (match withdraw 64 1000000000 m₁ ⟨t.report.minted, flat 200 1⟩ PerpIn.zero with
+        | (_, .error e) => some (t.report.minted, t.poolValue, e)
+        | _ => none)
+     | _ => none) = some (1851, 216000, MErr.pnlFactor) := by decide +kernel
 
 /-! ### Non-vacuity -/
 /-- first deposit into the empty market: 1 USD per token, minted = 3·1 + 2·1 (amount units). -/
